@@ -44,9 +44,9 @@ def make_run(cfg):
             super().__init__(*a, **k)
 
         def validateHandshake(self, conn, data):
-            # (the harness normally keeps the connection object, so that ids stay unique; where the connection object's own finalisation
-            #  matters it keeps a stand-in with the same identity number instead)
-            self.handshaken.append((data, ConnStandIn(conn) if cfg.get("raising_resource") else conn))
+            # (the harness keeps the connection object, so that ids stay unique; the connection object's own finalisation is run
+            #  explicitly at the end of the judgment, see "finalised" below)
+            self.handshaken.append((data, conn))
             return "ok"
 
         def clientDisconnect(self, conn):
@@ -301,6 +301,21 @@ def make_run(cfg):
                         V("resource-not-closed-when-its-connection-ended|%s|%s" % (cfg["server"], ecls), "after A's disconnect handling its tracked resources are %r" % (aft[0][1],))
                 if any(isinstance(x, tuple) and x[0] == "error" for x in got["a"]):
                     V("well-formed-call-on-connection-failed|%s|%s" % (cfg["server"], ecls), "A observed %s" % show(got["a"], 300))
+                # the ended connection object is finalised (the interpreter runs its __del__ when the last reference goes; the harness
+                # holds one in d.handshaken, so the finaliser is run here, deterministically, after everything else was judged):
+                # "exactly once" means that this closes no tracked resource a second time
+                before = [(r, r.closed) for lab, r, st in reg["resources"] if lab == "A" and st == "tracked"]
+                for conn in by_label.get("A", ()):
+                    if d.hooks.get(key_of(conn), 0) >= 1:
+                        fin = getattr(type(conn), "__del__", None)
+                        if fin is not None:
+                            try:
+                                fin(conn)
+                            except Exception as x:
+                                V("connection-finaliser-raises|%s|%s" % (cfg["server"], type(x).__name__), "%r" % x)
+                again = [(r.name, r.closed - n) for r, n in before if r.closed != n]
+                if again:
+                    V("tracked-resource-closed-again-at-finalisation|%s|%s" % (cfg["server"], ecls), "finalising the cleaned-up connection object closed %r once more" % (again,))
             obs = (ecls, cfg["server"], outcome, len(d.handshaken), tuple(sorted(d.hooks.values())), tuple((st, r.closed) for lab, r, st in reg["resources"]))
             return {"outcome": repr(obs), "violations": violations, "fatal": fatal, "sample": {"cfg": cfg, "a": show(got["a"], 120), "hooks": sorted(d.hooks.values())}}
         finally:
